@@ -247,7 +247,10 @@ def check_tree(c, item):
         try:
             with warnings.catch_warnings():
                 warnings.simplefilter('ignore')
-                m = Model(species=sp_list, reactions=[([], ['Z'], 'general', {'rate': text})], parameters=plist,
+                # (a second reaction whose rate reads every parameter with a weight of its own: used by the copied-model route)
+                probe = ' + '.join('%d*%s' % (k_ + 2, p_) for k_, p_ in enumerate(conf['params']))
+                m = Model(species=sp_list, reactions=[([], ['Z'], 'general', {'rate': text})] + ([([], ['Z'], 'general', {'rate': probe})] if dclass in ('d0', 'd1') else []),
+                          parameters=plist,
                           rules=[('assignment', {'equation': 'Z = ' + text})],
                           initial_condition_dict={s: POINTS[0][s] for s in conf['species']})
                 term2 = m.parse_general_expression(text)
@@ -309,6 +312,14 @@ def check_tree(c, item):
             c.count('evaluations'); c.count('transitions')
             compare(c, 'C02/value/%s/copied-and-extended-model' % opkey(tr), tr, text, 'general propensity of a pickled copy given one more parameter', got2, ref0,
                     dict(cfg=cfg, point=0, t=TIMES[0], volume=None))
+            try:
+                got3 = m2.get_propensities()[1].py_get_propensity(st2, m2.get_parameter_values(), TIMES[0])
+            except Exception:
+                got3 = None
+            want3 = sum((k_ + 2) * POINTS[0][p_] for k_, p_ in enumerate(conf['params']))
+            if got3 is None or abs(got3 - want3) > 1e-9 * (1 + abs(want3)):
+                c.violation('C02/value/copied-and-extended-model/probe', 'on a pickled copy of the model that was given one more parameter the rate %s evaluates to %r, the formula gives %r' % (
+                    probe, got3, want3), dict(tree=tr, text=text, route='copied-model', where=dict(cfg=cfg)))
         # the rule route needs the rule object
         try:
             rules = m.get_rules()
